@@ -91,14 +91,14 @@ class SStruct(Item):
 
 class SEnum(Item):
     PREFIX = "Q"
-    def _init(self, tag, variants, dflt=None):
+    def _init(self, tag, variants, dflt=None, force_portable=False):
         # variants: list of (form, [types]); form in unit|tuple|named
-        self.tag = tag; self.variants = variants; self.dflt = dflt
+        self.tag = tag; self.variants = variants; self.dflt = dflt; self.forced = force_portable
         self.default = dflt is not None
-        self.portable = tag == "u8" and all(f.portable for _, fs in variants for f in fs)
+        self.portable = (tag == "u8" or force_portable) and all(f.portable for _, fs in variants for f in fs)
     def spec(self):
         vs = ["%s(%s)" % (form[0], ",".join(f.spec() for f in fs)) for form, fs in self.variants]
-        return "senum(%s;%s;d%s)" % (self.tag, "|".join(vs), self.dflt)
+        return "senum(%s;%s;d%s%s)" % (self.tag, "|".join(vs), self.dflt, ";declared_portable" if self.forced else "")
 
 class UStruct(Item):
     PREFIX = "U"; sized = False
@@ -112,16 +112,16 @@ class UStruct(Item):
 
 class UEnum(Item):
     PREFIX = "W"; sized = False
-    def _init(self, tag, variants, dflt=None):
+    def _init(self, tag, variants, dflt=None, force_portable=False):
         for form, fs in variants:
             assert all(f.sized for f in fs[:-1])
-        self.tag = tag; self.variants = variants; self.dflt = dflt
+        self.tag = tag; self.variants = variants; self.dflt = dflt; self.forced = force_portable
         self.default = dflt is not None and all(f.default for _, fs in variants for f in fs)
         if dflt is not None: assert variants[dflt][0] == "unit"
-        self.portable = tag == "u8" and all(f.portable for _, fs in variants for f in fs)
+        self.portable = (tag == "u8" or force_portable) and all(f.portable for _, fs in variants for f in fs)
     def spec(self):
         vs = ["%s(%s)" % (form[0], ",".join(f.spec() for f in fs)) for form, fs in self.variants]
-        return "uenum(%s;%s;d%s)" % (self.tag, "|".join(vs), self.dflt)
+        return "uenum(%s;%s;d%s%s)" % (self.tag, "|".join(vs), self.dflt, ";declared_portable" if self.forced else "")
 
 # ---------------------------------------------------------------- emission
 def vname(i): return "V%d" % i
@@ -139,6 +139,7 @@ def flat_attr(item, sized, tag=None):
 
 def default_glue(item, sized):
     pre = "    harness::impl_sized_info!();\n" if sized else ""
+    pre += "    fn declared_portable() -> bool { %s }\n" % ("true" if item.portable else "false")
     if not item.default: return pre
     s = pre + "    fn try_default(bytes: &mut [u8]) -> Option<Result<&mut Self, Error>> { Some(Self::default_in_place(bytes)) }\n"
     s += "    harness::impl_flex_push_default!();\n"
@@ -509,6 +510,11 @@ def catalog(thorough):
     add(get(UEnum, "u8", [("unit", []), ("tuple", [LEF32, PP]), ("tuple", [PU])], 0))
     add(get(UStruct, [U8, Str(LE16)])); add(get(UStruct, [BOOL, Flex(Vec(U8, U8), LE16)]))
     add(Flex(Vec(U8, U8), LE16)); add(Flex(PU, U8)); add(Vec(PP, LE16)); add(Vec(QP, U8))
+    # portable declared on enums whose tag is wider than a byte (the macro accepts it)
+    add(get(SEnum, "u16", [("unit", []), ("tuple", [LE32])], 0, True))
+    add(get(UEnum, "u16", [("unit", []), ("tuple", [Vec(U8, U8)])], 0, True))
+    add(get(UEnum, "u32", [("unit", []), ("tuple", [LE16, Str(U8)])], 0, True))
+    add(Flex(Vec(U32, U8), U8)); add(Flex(Vec(U16, U8), U8))
     # FlexVec at top level
     items = [U8, U32, BOOL, P_u8u32, V88, V_i32_16, V_b8, S8, U_u32_v88, W_pad, Flex(U8, U8), U_u8_v, W_repo]
     ls = [U8, U16, U32, LE16] if thorough else [U8, U16]
